@@ -74,8 +74,9 @@ def _node_tokens(nn, na, B):
 
 def _branch_unit_ok(toks):
     """toks ends with ')': the closed branch is the first and only branch of its anchor and the unit
-    (anchor + branch) carries no ring marker -- the shapes the C05 alphabet admits for a branch multiplier"""
+    (anchor + branch) has no ring bond to the outside -- the shapes the C05 alphabet admits for a branch multiplier"""
     depth = 0
+    rings = {}
     for i in range(len(toks) - 1, -1, -1):
         k = toks[i][0]
         if k == ')':
@@ -83,6 +84,8 @@ def _branch_unit_ok(toks):
         elif k == '(':
             depth -= 1
             if depth == 0:
+                if any(c % 2 for c in rings.values()):
+                    return False        # a ring bond leaves the unit
                 j = i - 1
                 if j >= 0 and toks[j][0] == 'b':
                     j -= 1
@@ -90,7 +93,8 @@ def _branch_unit_ok(toks):
                     j -= 1
                 return j >= 0 and toks[j][0] == 'n'
         elif k == 'r':
-            return False
+            # ring bonds that open and close inside the branch are part of the unit that is written out n times
+            rings[toks[i][1]] = rings.get(toks[i][1], 0) + 1
     return False
 
 
@@ -364,12 +368,18 @@ def expand_mult(tokens):
 
 def mult_units_ok(chain):
     """C05 alphabet restriction: a branch multiplier only on an anchor with exactly one
-    branch, no ring marker on / inside a multiplied unit."""
-    def has_ring(ch):
-        return any(u['rings'] or any(has_ring(s) for _, s in u['branches']) for u in ch)
+    branch, no ring marker on the anchor of a multiplied unit and no ring bond that leaves the unit
+    (ring bonds that open and close inside the multiplied branch are part of the unit)."""
+    def ring_ids(ch, acc):
+        for u in ch:
+            for _, r in u['rings']:
+                acc[r[1]] = acc.get(r[1], 0) + 1
+            for _, s in u['branches']:
+                ring_ids(s, acc)
+        return acc
     for u in chain:
         if u['has_bmult']:
-            if len(u['branches']) != 1 or u['rings'] or has_ring(u['branches'][0][1]):
+            if len(u['branches']) != 1 or u['rings'] or any(c % 2 for c in ring_ids(u['branches'][0][1], {}).values()):
                 return False
         if u['nmult'] > 1 and u['rings']:
             return False
